@@ -176,8 +176,19 @@ func H_C18_relative() {
 	if inD1 {
 		c18Put(filepath.Join(d1, "n.jq"), `def id: "d1";`)
 	}
-	homeKind := nondetChoice(3)
+	homeKind := nondetChoice(4)
+	libInHome, decoy := false, false
 	switch homeKind {
+	case 3:
+		// ~/.jq is a file that imports with a relative search path: relative to the home directory
+		c18Put(filepath.Join(c18home, ".jq"), `import "helpers" as h {search: "./lib"}; def fromhome: h::hello;`)
+		libInHome, decoy = nondetBool(), nondetBool()
+		if libInHome {
+			c18Put(filepath.Join(c18home, "lib", "helpers.jq"), `def hello: "home/lib";`)
+		}
+		if decoy {
+			c18Put(filepath.Join(d1, "helpers.jq"), `def hello: "decoy";`)
+		}
 	case 1:
 		c18Put(filepath.Join(c18home, ".jq"), `def fromhome: "home";`)
 	case 2:
@@ -187,6 +198,8 @@ func H_C18_relative() {
 	loader := NewModuleLoader([]string{"~/.jq", d1})
 	out := c18RunSrc(`import "m" as m; m::id`, loader)
 	switch {
+	case homeKind == 3 && !libInHome && !decoy:
+		vassert(len(out) == 1 && out[0] == "<compile error>", "a failing import in the auto-included ~/.jq fails every compilation")
 	case inSub:
 		vassert(len(out) == 1 && out[0] == "sub", "a relative search path is resolved against the importing file's directory and tried first")
 	case inD1:
@@ -195,6 +208,18 @@ func H_C18_relative() {
 		vassert(len(out) == 1 && out[0] == "<compile error>", "otherwise the import fails")
 	}
 	out = c18RunSrc(`fromhome`, loader)
+	if homeKind == 3 {
+		switch {
+		case libInHome:
+			vassert(len(out) == 1 && out[0] == "home/lib", "a relative search path in ~/.jq is resolved against the home directory")
+		case decoy:
+			vassert(len(out) == 1 && out[0] == "decoy", "then the default search directories")
+		default:
+			vassert(len(out) == 1 && out[0] == "<compile error>", "otherwise the import in ~/.jq fails")
+		}
+		vreach("home-import")
+		return
+	}
 	if homeKind == 1 {
 		vassert(len(out) == 1 && out[0] == "home", "~/.jq as a file is auto-included")
 	} else {
